@@ -42,6 +42,10 @@ pub fn check(tier: Tier) -> Check {
     // requests made before connect(): they are served, and acknowledged, like the others
     parts.push(Part::new("C05/ops", json!({"depth": tier.pick(5, 6), "early": 3}), 0, tier.pick(40, 600)));
     parts.push(Part::new("C05/ops", json!({"depth": tier.pick(4, 5), "early": 4}), 1, tier.pick(40, 600)));
+    // after a connection loss and an EXPIRED session (hook H1) the old waiters are gone: new pings and
+    // a new subscribe on the next connection complete on their own acknowledgements
+    parts.push(Part::new("C05/expired", json!({"depth": tier.pick(4, 5), "expiry": 0, "secs_ago": 10, "fresh": true}), 0, tier.pick(40, 300)));
+    parts.push(Part::new("C05/expired", json!({"depth": tier.pick(3, 4), "expiry": 1000, "secs_ago": 100000, "fresh": true, "sched": true}), 1, tier.pick(40, 300)));
     // two operations outstanding whose packet identifiers differ in exactly one bit
     parts.push(Part::new("C05/bits", json!({}), 0, 120));
     Check {
@@ -258,6 +262,9 @@ fn bits(name: String, params: Value) -> Scenario {
 }
 
 pub fn scenario(name: &str, params: &Value) -> Scenario {
+    if name == "C05/expired" {
+        return super::c17::scenario_for("C05", name, params);
+    }
     if name == "C05/bits" {
         return bits(name.to_string(), params.clone());
     }
